@@ -103,12 +103,14 @@ def sym_grid(it, world, name, index='map', given=None):
 def snapshot(it, g):
     from hv.vc.values import unmap
     r = g.fields['_row']
+    if isinstance(r, list):
+        r = it.world.ops.to_seq(it, r, V) if r else SSeq(z3.IntVal(0), z3.K(I, z3.Const('noval', V)), V)
     ix = unmap(g.fields['_index'])
     if isinstance(ix, dict):
         ix = None if len(ix) else SMap(z3.K(K, z3.BoolVal(False)), z3.K(K, z3.Const('noval', V)), z3.IntVal(0), K, V)
     return GState(r.length, r.arr, ix is None, None if ix is None else ix.dom, None if ix is None else ix.val, None,
                   g.fields['_version'].term if isinstance(g.fields['_version'], SVal) else None,
-                  it.truth_term(g.fields['_version_given']), g.fields['metadata'].term, g.fields['column'].term,
+                  it.truth_term(g.fields['_version_given']), getattr(g.fields['metadata'], 'term', None), getattr(g.fields['column'], 'term', None),
                   it.truth_term(g.fields['$lt30']))
 
 
@@ -289,6 +291,8 @@ def reindex_contract(it, args, kwargs):
     g = args[0]
     c = it.ctx
     rows = g.fields['_row']
+    if isinstance(rows, list):
+        rows = it.world.ops.to_seq(it, rows, V) if rows else SSeq(z3.IntVal(0), z3.K(I, z3.Const('noval', V)), V)
     idom, ival = c.fresh('rx_dom', z3.ArraySort(K, B)), c.fresh('rx_val', z3.ArraySort(K, V))
     wit, isz = c.fresh('rx_wit', z3.ArraySort(K, I)), c.fresh('rx_size', I)
     c.assume(J_body(rows.length, rows.arr, idom, ival, wit))
